@@ -28,7 +28,7 @@ from fractions import Fraction
 from common import CORPUS, Check, call, import_repo, lst, rat, run_check, run_driver
 
 from c06 import (BOUND_SLACK, DYADIC_THRS, HALF, REFINE_TOL, TORCH_DTYPE, DTYPE_MIX, eff_abs_sum, float64_special,
-                 explain_bound_failure, half_refine_probe, is_p1_raise, patch_of, patch_size, thr_in_dtype)
+                 exact_offsets, explain_bound_failure, fail, half_refine_probe, is_p1_raise, patch_of, patch_size, thr_in_dtype)
 
 THEOREMS = [
     "SleapVerif.C07.global_attains_max",
@@ -40,6 +40,13 @@ THEOREMS = [
     "SleapVerif.C07.global_refine_channel_independent",
     "SleapVerif.C07.global_refine_bounded_partial",
     "SleapVerif.C07.global_refine_symmetric_fixed",
+    "SleapVerif.C07.global_refine_symmetric_fixed_of_map",
+    "SleapVerif.C07.global_refine_toward_centre_x",
+    "SleapVerif.C07.global_refine_toward_centre_y",
+    "SleapVerif.C07.global_refine_toward_centre_strict_x",
+    "SleapVerif.C07.global_refine_toward_centre_strict_y",
+    "SleapVerif.C07.global_bump_rough_is_centre",
+    "SleapVerif.C07.global_peaks_toward_centre",
     "SleapVerif.C07.global_refine_toward_centre",
     "SleapVerif.C07.global_refine_toward_centre_strict",
     "SleapVerif.C07.global_refine_toward_centre_border_counterexample",
@@ -111,6 +118,17 @@ def gen_case(rng):
         maps, den = [float64_special(rng, h, w, [[v / den for v in row] for row in m]) for m in maps], 1
         kind = "f64special"
     thr = rng.choice(THRS)[0] if dtype == "f32" else rng.choice(C07_DYADIC)
+    if dtype == "f64" and rng.random() < 0.35:
+        # float64 maxima just below / at / just above the threshold: a float32 comparison cannot tell them apart
+        if den != 1:
+            maps, den = [[[v / den for v in row] for row in m] for m in maps], 1
+        for m in maps:
+            for row in m:
+                for j in range(w):
+                    row[j] = min(row[j], thr - 0.0625)
+            for _ in range(rng.randrange(1, 3)):
+                m[rng.randrange(h)][rng.randrange(w)] = thr + rng.choice([-2e-10, -1e-10, 0.0, 1e-10, 2e-10])
+        kind = "f64thr_edge"
     return {"S": S, "C": C, "h": h, "w": w, "den": den, "maps": maps, "thr": thr, "p": p, "dtype": dtype,
             "kind": kind, "shape": shape}
 
@@ -140,25 +158,39 @@ def big_half_case(rng):
 
 
 def gen_gauss_case(rng):
-    """sub-pixel Gaussian bumps (float32 values, not on a lattice); per channel its true centre"""
+    """sub-pixel bumps (float values, not on a lattice) with their true centre per channel.  Profiles:
+    `gauss` (the property's case), `cone` and `quad` (other even, radially decreasing profiles — the theorems cover them),
+    `sep` (separable a(|i-cy|)·b(|j-cx|) with different widths, centred exactly on the cell: mirror-symmetric about the
+    cell's row and column but not radial — exercises the symmetric-unmoved clause beyond Gaussians)"""
     S, C = rng.randrange(1, 3), rng.randrange(1, 4)
     p = rng.choice([2, 3, 4, 5, 5, 6, 7, 8])  # odd and even integral_patch_size
     r = p // 2
     h, w = rng.randrange(2 * r + 3, 2 * r + 10), rng.randrange(2 * r + 3, 2 * r + 10)
     maps, truth = [], []
     for _ in range(S * C):
+        profile = rng.choice(["gauss", "gauss", "gauss", "cone", "quad", "sep"])
         sigma = rng.choice([0.75, 1.0, 1.5, 2.0, 2.5])
         inside = rng.random() < 0.75
         lo = r if inside else 0
         cx, cy = rng.randrange(lo, w - lo), rng.randrange(lo, h - lo)
-        dx, dy = rng.choice([0.0, 0.0, rng.randrange(-7, 8) / 16]), rng.choice([0.0, rng.randrange(-7, 8) / 16])
+        dx = rng.choice([0.0, rng.choice([-1, 1]) * rng.randrange(1, 8) / 16, rng.randrange(-7, 8) / 16])
+        dy = rng.choice([0.0, rng.choice([-1, 1]) * rng.randrange(1, 8) / 16, rng.randrange(-7, 8) / 16])
         amp = rng.choice([1.0, 0.75, 0.3])
-        m = [[amp * math.exp(-(((j - cx - dx) ** 2 + (i - cy - dy) ** 2) / (2 * sigma * sigma))) for j in range(w)]
-             for i in range(h)]
-        maps.append(m)
-        truth.append({"cx": cx, "cy": cy, "dx": dx, "dy": dy, "sigma": sigma, "amp": amp})
+        R = 3.0 * (h + w)  # support of cone / quad: the whole map stays on the strictly decreasing part
+        if profile == "sep":
+            dx = dy = 0.0
+            sx, sy = rng.choice([0.75, 1.0, 2.0]), rng.choice([0.75, 1.5, 2.5])
+            f = lambda i, j: amp * math.exp(-abs(j - cx) / sx) / (1.0 + ((i - cy) / sy) ** 2)
+        elif profile == "cone":
+            f = lambda i, j: amp * (1.0 - math.sqrt((j - cx - dx) ** 2 + (i - cy - dy) ** 2) / R)
+        elif profile == "quad":
+            f = lambda i, j: amp * (1.0 - ((j - cx - dx) ** 2 + (i - cy - dy) ** 2) / (R * R))
+        else:
+            f = lambda i, j: amp * math.exp(-(((j - cx - dx) ** 2 + (i - cy - dy) ** 2) / (2 * sigma * sigma)))
+        maps.append([[f(i, j) for j in range(w)] for i in range(h)])
+        truth.append({"cx": cx, "cy": cy, "dx": dx, "dy": dy, "sigma": sigma, "amp": amp, "profile": profile})
     dtype = rng.choice(["f32", "f32", "f64"])
-    return {"S": S, "C": C, "h": h, "w": w, "den": 1, "maps": maps, "thr": rng.choice([0.2, 0.1, 0.5]) if dtype == "f32" else 0.5,
+    return {"S": S, "C": C, "h": h, "w": w, "den": 1, "maps": maps, "thr": rng.choice([0.2, 0.1, 0.5]) if dtype == "f32" else 0.125,
             "p": p, "dtype": dtype, "kind": "gauss", "shape": "gauss", "truth": truth}
 
 
@@ -305,11 +337,11 @@ def run_case(chk, I, case, mline, f07_known):
              {"shape": [S, C, h, w], "thr": thr, "p": p, "dtype": dtype, "kind": case.get("kind"), "valid": nvalid}
              if nvalid and case.get("kind") not in ("gauss", "big_half") else None,
              tags=[f"shape:{case.get('shape')}", f"p:{p}", f"dtype:{dtype}", f"thr:{thr}", "thr<0" if thr < 0 else "thr>=0",
-                   "S>1&C>1" if S > 1 and C > 1 else "S=1|C=1"] + ([f"kind:{case['kind']}"] if case.get("kind") in ("f64special", "big_half") else []) + [ f"valid:{nvalid}/{S * C}" if S * C <= 2 else
+                   "S>1&C>1" if S > 1 and C > 1 else "S=1|C=1"] + ([f"kind:{case['kind']}"] if case.get("kind") in ("f64special", "f64thr_edge", "big_half") else []) + [ f"valid:{nvalid}/{S * C}" if S * C <= 2 else
                    ("valid:all" if nvalid == S * C else "valid:none" if nvalid == 0 else "valid:mixed")])
     if rough and rough[0] == "raise":
         chk.disagree("find_global_peaks_rough raises where the model does not", small, str(rough), "ok")
-        chk.fail("C07: find_global_peaks_rough raised", small, str(rough))
+        fail(chk, "C07: find_global_peaks_rough raised", small, str(rough))
         return
     which = []  # per channel: which model the implementation's rough output follows
     for k, (g, m) in enumerate(zip(rough, model)):
@@ -330,7 +362,7 @@ def run_case(chk, I, case, mline, f07_known):
                              list(g), [float(x) if x is not None else None for x in m["asis"]])
         if why:
             one = {"S": 1, "C": 1, "h": h, "w": w, "den": case["den"], "maps": [case["maps"][k]], "thr": thr, "p": p, "dtype": dtype}
-            chk.fail(f"C07 fails on find_global_peaks_rough ({TORCH_DTYPE[dtype]} maps): {why}", one, list(g), sigs)
+            fail(chk, f"C07 fails on find_global_peaks_rough ({TORCH_DTYPE[dtype]} maps): {why}", one, list(g), sigs)
 
     none_ref = I.full(cms, thr, None, 5)
     if none_ref != rough and not (str(none_ref) == str(rough)):
@@ -342,7 +374,7 @@ def run_case(chk, I, case, mline, f07_known):
             s, c = divmod(k, C)
             alone = I.rough(cms[s:s + 1, c:c + 1], thr)
             if str(alone[0]) != str(rough[k]):
-                chk.fail("C07: result of one channel depends on the other maps in the batch",
+                fail(chk, "C07: result of one channel depends on the other maps in the batch",
                          {**small, "channel": [s, c]}, {"in_batch": rough[k], "alone": alone[0]})
     n_ev = chk.evaluations
     if n_ev % 6 == 1 and h * w > 1:  # a non-contiguous view of the same tensor
@@ -353,7 +385,7 @@ def run_case(chk, I, case, mline, f07_known):
             for k, g in enumerate(got if got and got[0] != "raise" else []):
                 why, sigs = oracle_rough(np, a[k // C, k % C], thr, g, dtype)
                 if why:
-                    chk.fail(f"C07 fails on find_global_peaks_rough (non-contiguous input): {why}", {**small, "channel": [k // C, k % C]}, list(g), sigs)
+                    fail(chk, f"C07 fails on find_global_peaks_rough (non-contiguous input): {why}", {**small, "channel": [k // C, k % C]}, list(g), sigs)
     if n_ev % 7 == 2:  # any other refinement string returns the rough peaks
         chk.tag("oracle:refinement=other-string")
         got = I.full(cms, thr, "local", 5)
@@ -370,12 +402,12 @@ def run_case(chk, I, case, mline, f07_known):
     refined = I.full(cms, thr, "integral", p)
     if is_p1_raise(refined, p):
         # documented behaviour of the pinned tree (finding F-C06p1); the model's value is rough + 0
-        chk.fail("C07: find_global_peaks(integral, integral_patch_size=1) raises inside kornia", small, str(refined),
+        fail(chk, "C07: find_global_peaks(integral, integral_patch_size=1) raises inside kornia", small, str(refined),
                  ["patch_size_1"])
         return
     if refined and refined[0] == "raise":
         chk.disagree("find_global_peaks(integral) raises where the model does not", small, str(refined), "ok")
-        chk.fail("C07: find_global_peaks(integral) raised", small, str(refined))
+        fail(chk, "C07: find_global_peaks(integral) raised", small, str(refined))
         return
     def close(fa, fb, g_, s_, c_):
         """two implementation outputs for one channel: NaN pattern and value exactly, point within the conditioned tolerance"""
@@ -398,7 +430,7 @@ def run_case(chk, I, case, mline, f07_known):
             s, c = divmod(k, C)
             alone = I.full(cms[s:s + 1, c:c + 1], thr, "integral", p)
             if (alone and alone[0] == "raise") or not close(alone[0], refined[k], rough[k], s, c):
-                chk.fail("C07: refined result of one channel depends on the other maps in the batch",
+                fail(chk, "C07: refined result of one channel depends on the other maps in the batch",
                          {**small, "channel": [s, c]}, {"in_batch": refined[k], "alone": alone[0] if alone else None})
     if p >= 2 and n_ev % 6 == 1 and h * w > 1:
         got = I.full(cms.transpose(2, 3).contiguous().transpose(2, 3), thr, "integral", p)
@@ -440,62 +472,92 @@ def run_case(chk, I, case, mline, f07_known):
             chk.extra["excluded_region_cases"] = chk.extra.get("excluded_region_cases", 0) + 1
         if why:
             one = {"S": 1, "C": 1, "h": h, "w": w, "den": case["den"], "maps": [case["maps"][k]], "thr": thr, "p": p, "dtype": dtype}
-            chk.fail(f"C07 fails on find_global_peaks(integral, p={p}): {why}", one, list(f), sigs)
+            fail(chk, f"C07 fails on find_global_peaks(integral, p={p}): {why}", one, list(f), sigs)
 
-    # ---- Gaussian bumps: symmetric-unmoved / toward-centre / no-overshoot
+    # ---- sub-pixel bumps: symmetric-unmoved / toward-centre / no-overshoot
     for k, t in enumerate(case.get("truth", [])):
         s, c = divmod(k, C)
         g, f = rough[k], refined[k]
         if g[0] is None or f[0] is None:
             continue
-        if (g[0], g[1]) != (t["cx"], t["cy"]):  # |δ| < 1/2, so the nearest cell is the argmax
-            chk.fail("C07: rough peak of a Gaussian is not the cell nearest to its centre", {**small, "channel": [s, c]},
-                     {"rough": g, "truth": t})
+        if (g[0], g[1]) != (t["cx"], t["cy"]):  # |δ| < 1/2 and a strictly decreasing profile: theorem global_bump_rough_is_centre
+            fail(chk, "C07: rough peak of a bump is not the cell nearest to its centre", {**small, "channel": [s, c]},
+                 {"rough": g, "truth": t})
             continue
-        bad, sigs, inside, e0, e1 = oracle_bump(g, f, t, p, h, w)
-        chk.tag("gauss:inside" if inside else "gauss:border")
+        bad, sigs, inside, e0, e1, clauses = oracle_bump(np, a[s, c], g, f, t, p, dtype)
+        prof = t.get("profile", "gauss")
+        chk.tag("bump:inside" if inside else "bump:border", f"bump:profile:{prof}", f"bump:p:{p}",
+                f"bump:sigma:{t['sigma']}" if prof == "gauss" else "bump:sigma:n/a",
+                "bump:dx!=0" if t["dx"] != 0 else "bump:dx=0", "bump:dy!=0" if t["dy"] != 0 else "bump:dy=0")
         if bad:
             one = {"S": 1, "C": 1, "h": h, "w": w, "den": case["den"], "maps": [case["maps"][k]], "thr": thr, "p": p,
                    "dtype": dtype, "truth": [t]}
-            chk.fail("C07 fails on a Gaussian bump: " + "; ".join(bad), one, {"rough": g, "refined": f}, sigs)
-        # does refinement reduce the error?  interior: measured only (a test, no theorem); border: part of the oracle above
-        key = "test_error_reduced_inside" if inside else "border_error_reduced"
+            fail(chk, f"C07 fails on a {prof} bump: " + "; ".join(bad), one, {"rough": g, "refined": f}, sigs, clause=clauses)
+        # does refinement reduce the error?  interior: measured only (a test; Gaussian-specific, not a theorem); border: oracle above
+        key = ("test_error_reduced_inside:" + prof) if inside else "border_error_reduced"
         st = chk.extra.setdefault(key, {"n": 0, "reduced_or_equal": 0, "worst_increase": 0.0})
         st["n"] += 1
         st["reduced_or_equal"] += int(e1 <= e0 + 1e-6)
         st["worst_increase"] = max(st["worst_increase"], e1 - e0)
 
 
-def oracle_bump(g, f, t, p, h, w):
-    """Property oracle for a sub-pixel bump with true centre (cx+dx, cy+dy), rough cell g = (cx,cy), refined point f.
-    Per axis: symmetric about the cell => unmoved; otherwise the move has the sign of the true offset.
-    A failure on an axis along which the p x p patch leaves the map (it then reads the zero padding) carries the signature
-    `refinement_patch_crosses_border` (finding F-C07b); when the patch crosses the border on any axis the estimate must also
-    not end up farther from the true centre than the rough cell (no overshoot), same signature.  A failure on an axis that
-    stays inside the map carries no signature: it is an ordinary violation."""
+def ulp32(v):
+    """float32 unit in the last place at |v|"""
+    v = abs(float(v))
+    return 2.0 ** (math.floor(math.log2(v)) - 23) if v > 0 else 2.0 ** -149
+
+
+def bump_clauses(ox, oy, cx, cy, dx, dy, cross_x, cross_y, sym_tol):
+    """failing clauses of the bump property for an offset (ox, oy) from the rough cell:
+    {clause id: text}; ids are `sym|dir/<axis>/<cross|inside>` and `overshoot/cross`"""
+    out = {}
+    for o, d, nm, cross, tol in ((ox, dx, "x", cross_x, sym_tol[0]), (oy, dy, "y", cross_y, sym_tol[1])):
+        where = "cross" if cross else "inside"
+        if d == 0 and not abs(o) <= tol:
+            out[f"sym/{nm}/{where}"] = f"{nm}: symmetric about the cell but moved by {o} (patch {where} on this axis)"
+        if d != 0 and not (o * d > 0):
+            out[f"dir/{nm}/{where}"] = f"{nm}: true offset {d}, refinement moved by {o} (patch {where} on this axis)"
+    e0 = math.hypot(dx, dy)
+    e1 = math.hypot(ox - dx, oy - dy)
+    if (cross_x or cross_y) and not e1 <= e0 + 1e-6:
+        out["overshoot/cross"] = f"overshoot: error to the true centre grew from {e0:.4f} to {e1:.4f} (patch crosses the border)"
+    return out, e0, e1
+
+
+def oracle_bump(np, a2, g, f, t, p, dtype="f32"):
+    """Property oracle for a sub-pixel bump with true centre (cx+dx, cy+dy), rough cell g = (cx,cy), refined point f, on the
+    (h,w) map `a2` (exact values).
+    Clauses, per axis: symmetric about the cell => unmoved (within max(1e-5, 8 float32 ulps of the coordinate)); otherwise
+    the move has the sign of the true offset; and, when the p x p window leaves the map on some axis, the estimate must not
+    end up farther from the true centre than the rough cell (no overshoot).
+    Signature `refinement_patch_crosses_border` (finding F-C07b) is EFFECT-based: a failing clause is explained by it only if
+    (i) the window leaves the map on that clause's axis (any axis for overshoot), (ii) the observed point equals
+    rough + exact integral regression on the zero-padded true patch within the correspondence tolerance — i.e. the code does
+    what the model says — and (iii) that exact value itself fails the same clause.  The signature is returned only when
+    every failing clause is explained; anything else is an ordinary violation with the concrete map."""
+    h, w = a2.shape
     cx, cy, dx, dy = t["cx"], t["cy"], t["dx"], t["dy"]
     m = p // 2  # the crop reads cells c-m .. c+m (odd p: exactly; even p: the four-cell means span the same range)
     cross_x = not (m <= cx < w - m)
     cross_y = not (m <= cy < h - m)
     inside = not (cross_x or cross_y)
-    bad, sigs = [], []
-    for o, d, nm, cross in ((f[0] - g[0], dx, "x", cross_x), (f[1] - g[1], dy, "y", cross_y)):
-        why = None
-        if d == 0 and abs(o) > 1e-5:
-            why = f"{nm}: symmetric about the cell but moved by {o}"
-        if d != 0 and not (o * d > 0):
-            why = f"{nm}: true offset {d}, refinement moved by {o}"
-        if why:
-            bad.append(why + (" (patch crosses the border on this axis)" if cross else " (patch inside the map on this axis)"))
-            sigs.append("refinement_patch_crosses_border" if cross else None)
-    e0 = math.hypot(dx, dy)
-    e1 = math.hypot(f[0] - cx - dx, f[1] - cy - dy)
-    if not inside and e1 > e0 + 1e-6:
-        bad.append(f"overshoot: error to the true centre grew from {e0:.4f} to {e1:.4f} (patch crosses the border)")
-        sigs.append("refinement_patch_crosses_border")
-    # a known signature only applies when EVERY failing clause is explained by it
-    sig = ["refinement_patch_crosses_border"] if bad and all(x is not None for x in sigs) else []
-    return bad, sig, inside, e0, e1
+    sym_tol = (max(1e-5, 8 * ulp32(f[0])), max(1e-5, 8 * ulp32(f[1])))
+    obs, e0, e1 = bump_clauses(f[0] - g[0], f[1] - g[1], cx, cy, dx, dy, cross_x, cross_y, sym_tol)
+    if not obs:
+        return [], [], inside, e0, e1, []
+    explained = set()
+    if not inside:
+        z, off, _neg = exact_offsets(a2, cx, cy, p)
+        if off is not None:
+            ex, ey = float(off[0]), float(off[1])
+            P = patch_of(np, a2[None, None], 0, 0, cx, cy, p)
+            az = eff_abs_sum(np, P, a2, p)
+            tol = REFINE_TOL[dtype] * max(1.0, (p + 1) / 2 * az / abs(float(z)))
+            if abs((f[0] - g[0]) - ex) <= tol and abs((f[1] - g[1]) - ey) <= tol:
+                exact_fail, _, _ = bump_clauses(ex, ey, cx, cy, dx, dy, cross_x, cross_y, (1e-9, 1e-9))
+                explained = {k for k in obs if k.endswith("/cross") and k in exact_fail}
+    sigs = ["refinement_patch_crosses_border"] if all(k in explained for k in obs) else []
+    return list(obs.values()), sigs, inside, e0, e1, sorted(obs)
 
 
 def witness_case(wt):
@@ -529,14 +591,21 @@ def main(chk: Check):
             chk.known_replay("F-C07", still_fails=bool(why) and "tied_max_separate_argmax" in sigs,
                              detail=f"impl={got} repaired-model={m['fix']}")
         elif ent["signature"] == "refinement_patch_crosses_border":
-            g = I.rough(cms, case["thr"])[0]
-            f = I.full(cms, case["thr"], "integral", case["p"])[0]
-            bad, sigs, inside, e0, e1 = oracle_bump(g, f, ent["witness"]["truth"], case["p"], case["h"], case["w"])
-            m = parse_model(run_driver("C07.lean", [model_line(case, cms)])[0], 1)[0]
-            if m["pfix"] in (None, "inf") or f[0] is None or abs(f[0] - float(m["pfix"][0])) > 1e-4:
-                chk.disagree("F-C07b witness: implementation == model", ent["witness"], list(f), str(m["pfix"]))
-            chk.known_replay(ent["id"], still_fails=bool(bad) and ent["signature"] in sigs,
-                             detail=f"rough={g} refined={f} model={m['pfix']} {bad}")
+            still, details = True, []
+            for wt in (ent["witness"], ent.get("witness_symmetric")):  # toward-centre witness, symmetric-bump witness
+                if wt is None:
+                    continue
+                wc = witness_case(wt)
+                wcms = I.tensor(wc)
+                g = I.rough(wcms, wc["thr"])[0]
+                f = I.full(wcms, wc["thr"], "integral", wc["p"])[0]
+                bad, sigs, inside, e0, e1, cl = oracle_bump(np, I.exact(wcms)[0, 0], g, f, wt["truth"], wc["p"])
+                m = parse_model(run_driver("C07.lean", [model_line(wc, wcms)])[0], 1)[0]
+                if m["pfix"] in (None, "inf") or f[0] is None or abs(f[0] - float(m["pfix"][0])) > 1e-4:
+                    chk.disagree("F-C07b witness: implementation == model", wt, list(f), str(m["pfix"]))
+                still = still and bool(bad) and ent["signature"] in sigs
+                details.append(f"rough={g} refined={f} model={m['pfix']} clauses={cl}")
+            chk.known_replay(ent["id"], still_fails=still, detail="; ".join(details))
         else:
             g = I.rough(cms, case["thr"])[0]
             full = I.full(cms, case["thr"], "integral", ent["witness"]["patch"])
@@ -562,6 +631,9 @@ def main(chk: Check):
                   "maps": [[[0, 0, 0], [0, 8, 0], [0, 0, 0]]]})                           # max == thr is kept
     cases.append({"S": 2, "C": 1, "h": 2, "w": 3, "den": 8, "thr": 0.2, "p": 5, "kind": "fixed", "shape": "fixed",
                   "maps": [[[8, 8, 8], [8, 8, 8]], [[1, 1, 1], [1, 1, 1]]]})              # plateau; first cell
+    cases.append({"S": 1, "C": 2, "h": 3, "w": 3, "den": 1, "thr": 0.5, "p": 0, "dtype": "f64", "kind": "f64thr_edge", "shape": "fixed",
+                  "maps": [[[0.0, 0.0, 0.0], [0.0, 0.5 - 1e-10, 0.0], [0.0, 0.0, 0.0]],   # just below thr: invalid
+                           [[0.0, 0.0, 0.0], [0.0, 0.5, 0.25], [0.0, 0.0, 0.5 - 1e-10]]]})  # max == thr: kept
     for _ in range(chk.n(3, 16)):
         cases.append(big_half_case(rng))
     for _ in range(chk.n(1000, 8000)):
@@ -604,7 +676,7 @@ if __name__ == "__main__":
         ],
         rule="S,C in 1..3, maps 1x1 / 1xN / Nx1 / up to 9x9 on the 1/8 or 1/16 lattice (few-level fields, 2-4 tied maxima biased to "
              "borders/corners and to different rows AND columns, unique border maxima, all-low, constant; with and without negative "
-             "values; mixed valid/invalid channels), 7 thresholds, integral_patch_size 1..8 (odd and even) or none; plus float32 Gaussian bumps (sigma 0.75..2.5, "
+             "values; mixed valid/invalid channels), 7 thresholds, integral_patch_size 1..8 (odd and even) or none; plus float32/float64 sub-pixel bumps (Gaussian sigma 0.75..2.5, cone, quadratic, separable-symmetric; "
              "sub-pixel centres on 1/16, inside and at the border); distinct = distinct (shape, thr, patch, map bytes) with >= 1 valid "
              "channel and more than one cell",
         assumptions=[
@@ -620,7 +692,10 @@ if __name__ == "__main__":
             "every run with the oracle (excluded_region_cases) — search, not proof",
             "toward-centre / symmetric-unmoved are theorems for patches inside the map; the unrestricted statement is false "
             "(global_refine_toward_centre_border_counterexample, F-C07b): patches crossing the border are sampled every run with the "
-            "oracle (direction per axis, symmetric-unmoved, no overshoot) and routed through the signature refinement_patch_crosses_border; "
+            "oracle (direction per axis, symmetric-unmoved, no overshoot) and routed through the EFFECT-based signature "
+            "refinement_patch_crosses_border (window leaves the map on the clause's axis AND observed = rough + exact zero-padded estimator "
+            "within tolerance AND that exact value fails the same clause); per-axis theorems (global_refine_toward_centre_x/_y) back the "
+            "verdict on an axis that stays inside; "
             "'refinement reduces the error' for interior patches is measured only (test_error_reduced_inside)",
         ],
     )
